@@ -45,7 +45,12 @@ def run_harness(ctx, exe, projects, tag):
     for i, p in enumerate(projects):
         d = os.path.join(base, "p%d" % i)
         p.write(d)
-        lines_in.append("%s\t%s\n" % (d, os.path.join(d, "out")))
+        prev = ""
+        if getattr(p, "regen", None):
+            # the build helper ran before, for an earlier state of the project, into the same directory
+            prev = d + "_prev"
+            sc.regen_variant(p, p.regen).write(prev)
+        lines_in.append("%s\t%s\t%s\n" % (d, os.path.join(d, "out"), prev))
     rc, out, err = core.sh([exe], input="".join(lines_in), timeout=900)
     lines = out.splitlines()
     if rc != 0 or len(lines) != len(projects):
@@ -70,7 +75,8 @@ def unit_cases(pi, proj, res):
         meta = {"project": pi, "namespace": ns, "locale": loc, "locales": proj.locales, "namespaces": proj.namespaces,
                 "impl_count": u["count"], "impl_strings": u["strings"], "file": rel,
                 "impl_file_text": text if text is not None else (raw.hex() if raw is not None else None),
-                "python_json_ok": py_ok, "shape_error": u.get("shape_error"), "write": res["write"]}
+                "python_json_ok": py_ok, "shape_error": u.get("shape_error"), "write": res["write"],
+                "earlier_generation_into_the_same_directory": getattr(proj, "regen", None), "earlier_write": res.get("previous_write")}
         if "tree" not in u:
             out.append((None, meta))
             continue
@@ -188,6 +194,8 @@ DIMS = {
     "nloc": ["1", "2", "3", "4+"],
     "role": ["default", "other", "inherits", "inherited_from"],
     "ns": ["none", "1", "2+"],
+    # the files are judged after the LAST generation; an earlier one wrote into the same directory
+    "regen": ["none"] + sc.REGEN_MODES,
     "ns_name": ["none", "identifier", "dashed"],   # configured name of the unit's namespace (`user-profile` is not an identifier)
     "depth": ["0", "1", "2", "3"],
     "kinds": ["L", "O", "R", "D", "V", "P", "B", "C"],
@@ -204,6 +212,8 @@ DIMS = {
 def infeasible(A, a, B, b):
     v = {A: a, B: b}
     g = v.get
+    if g("regen") == "after_extra_namespace" and (g("ns") == "none" or g("ns_name") == "none"):
+        return "a removed namespace needs a project with namespaces"
     if "ns" in v and "ns_name" in v and (g("ns") == "none") != (g("ns_name") == "none"):
         return "a namespace name belongs to a project with namespaces"
     if g("nloc") == "1" and (g("role") not in (None, "default") or g("dup") in ("across_other_locales", "across_default")
@@ -243,6 +253,7 @@ def unit_tags(proj, ns, loc, res):
     li = proj.locales.index(loc)
     t = {"nloc": {str(len(proj.locales)) if len(proj.locales) < 4 else "4+"},
          "ns": {"none" if not proj.namespaces else "1" if len(proj.namespaces) == 1 else "2+"}}
+    t["regen"] = {getattr(proj, "regen", None) or "none"}
     t["ns_name"] = {"none" if ns is None else "dashed" if "-" in ns else "identifier"}
     if li == 0:
         t["role"] = {"default"}
@@ -338,6 +349,8 @@ def params_for(rng, pair):
     role_idx = None
     if "nloc" in v:
         P["nloc"] = {"1": 1, "2": 2, "3": 3, "4+": rng.choice([4, 5])}[v["nloc"]]
+    if v.get("regen") == "after_extra_namespace" and "ns" not in v:
+        P["nns"] = rng.choice([1, 2, 3])
     if v.get("ns_name") in ("identifier", "dashed"):
         P["nns"] = rng.choice([2, 3, 4])
     if "ns" in v:
@@ -428,6 +441,14 @@ def run(ctx):
                 projects.append(sc.structured_project(rng, nloc=nloc, nns=j, depth=(k % 4), mode=mode, inherit=(k % 2 == 0),
                                                       ascii_idx=(tuple(range(nloc)) if k % 5 == 0 else ()),
                                                       focus=sc.CLASSES[k % len(sc.CLASSES)]))
+    def set_regen(p, i, want=None):
+        mode = want if want else (sc.REGEN_MODES[i % 4] if i % 8 < 4 else None)
+        if mode == "after_extra_namespace" and not p.namespaces:
+            mode = "after_longer"
+        p.regen = mode
+    for i, p in enumerate(projects):
+        set_regen(p, i)
+    stale_files = regen_done = regen_failed = 0
     items, metas, skipped, panics, shape = [], [], [], [], []
     ns_items, ns_metas = [], []
     tagged = []
@@ -443,6 +464,11 @@ def run(ctx):
             if r["status"] != "OK":
                 skipped.append({"project": pi, "error": r["err"]})
                 continue
+            expected_files = {((ns + "/") if ns else "") + loc + ".json" for (ns, loc) in r["order"]}
+            stale_files += len(set(r["files"]) - expected_files)
+            if getattr(p, "regen", None):
+                regen_done += (r.get("previous_write") == "OK")
+                regen_failed += (r.get("previous_write") != "OK")
             for ns in (p.namespaces or [None]):
                 trees = [r["units"][(n2, loc)].get("tree") for (n2, loc) in r["order"] if n2 == ns]
                 if "kinds" in r and ns in r["kinds"] and all(t is not None for t in trees):
@@ -467,6 +493,10 @@ def run(ctx):
         for pair in missing[:150]:
             for _ in range(2):
                 todo.append(sc.structured_project(rng, **params_for(rng, pair)))
+                want = pair[1] if pair[0] == "regen" else pair[3] if pair[2] == "regen" else None
+                set_regen(todo[-1], len(todo), None if want == "none" else want)
+                if want == "none":
+                    todo[-1].regen = None
     projects_total = n_done
     codes = core.coq_eval(ctx, "c11", PRE, items, "check_x", timeout=1200)
     ns_codes = core.coq_eval(ctx, "c11ns", PRE, ns_items, "check_ns", timeout=1200)
@@ -491,7 +521,8 @@ def run(ctx):
     if bad_spec:
         bad_spec.sort(key=lambda m: (sum(len(s) for s in m["impl_strings"]), len(m["impl_strings"])))
         first = bad_spec[0]
-        structural = first.get("literals_not_selecting_their_text") or first.get("nested_blocks_with_wrong_count")
+        structural = (first.get("literals_not_selecting_their_text") or first.get("nested_blocks_with_wrong_count")
+                      or first.get("earlier_generation_into_the_same_directory"))
         small = first if structural else (shrink(ctx, exe, first) or first)     # a single text cannot reproduce those
         small = dict(small)
         small.pop("stats", None)
@@ -556,7 +587,9 @@ def run(ctx):
                 "kinds that differ between locales (boolean / signed / unsigned / float in the default locale and a plain text "
                 "in another, the reverse, other non-string types; first differing locale 1st, 2nd or 3rd in merge order; default "
                 "locale at any position of the configured list); then a "
-                "structured grid (1-4 locales x 0-2 namespaces x nesting depth 0-3, with and without `inherits`) whose groups hold "
+                "regeneration (for half of the projects the build helper first writes an earlier state of the project — longer texts and "
+                "one more key, shorter texts, the same content, one more namespace — into the same directory, the files are judged after "
+                "the last generation); a structured grid (1-4 locales x 0-2 namespaces x nesting depth 0-3, with and without `inherits`) whose groups hold "
                 "every kind of value, one text per class, exact and near duplicates, a foreign key copying a text, texts shared "
                 "among the non-default locales and with the default locale, defaulted keys and a wholly defaulted subgroup, "
                 "ASCII-only locales, and variants whose tables have 0, 1 and a few strings; then top-up rounds of structured "
@@ -567,6 +600,8 @@ def run(ctx):
         "projects": projects_total, "projects_rejected_by_parser": len(skipped), "rejected_examples": skipped[:3],
         "traces_validated_against_impl": len(metas),
         "disagreements": len(disagree) + len(ns_disagree), "spec_failures_on_impl": len(bad_spec),
+        "files_left_by_an_earlier_generation_not_judged": stale_files,
+        "projects_generated_twice_into_the_same_directory": regen_done, "earlier_generations_that_failed": regen_failed,
         "namespaces_merged_in_the_model": len(ns_items), "key_state_disagreements": len(ns_disagree),
         "namespaces_outside_the_model": ns_unmodelled,
         "decoder_mismatch_coq_vs_python": len(oracle_mismatch), "unexpected_shapes": len(shape), "panics": len(panics),
